@@ -121,6 +121,15 @@ type World struct {
 	idleWaiters []*Task
 	IdleWakes   int
 
+	// statement-level preemption (woven simrt.Preempt calls): average number of
+	// preemption points between two yields; 0 = never yield there
+	PreemptAvg  int
+	MaxPreempt  int // after this many statement-level preemptions the rest of the run is not preempted
+	preemptNext int
+	preemptCnt  int
+	preemptRng  uint64
+	Preemptions int
+
 	policy    int
 	last      *Task
 	preemptK  int
@@ -164,6 +173,10 @@ func NewWorld(t *tape.Tape) *World {
 	case PolStarve:
 		w.starve = t.Choose(6)
 	}
+	w.PreemptAvg = []int{0, 0, 0, 200, 40, 8, 2}[t.Choose(7)]
+	w.preemptRng = t.U64() | 1
+	w.preemptNext = 1
+	w.MaxPreempt = 3000
 	epochCounter++
 	w.Epoch = epochCounter
 	cur = w
@@ -366,6 +379,35 @@ func (w *World) Yield(site string) {
 	t := w.Me()
 	if t == nil {
 		return
+	}
+	w.park(t, Runnable, site, "")
+}
+
+// MaybePreempt is called at woven statement-level preemption points.
+//
+//go:norace
+func (w *World) MaybePreempt(site string) {
+	if w.PreemptAvg <= 0 || w.dead {
+		return
+	}
+	w.preemptCnt++
+	if w.preemptCnt < w.preemptNext {
+		return
+	}
+	w.preemptCnt = 0
+	x := w.preemptRng
+	x ^= x << 13
+	x ^= x >> 7
+	x ^= x << 17
+	w.preemptRng = x
+	w.preemptNext = 1 + int(x%uint64(2*w.PreemptAvg))
+	t := w.Me()
+	if t == nil {
+		return
+	}
+	w.Preemptions++
+	if w.Preemptions >= w.MaxPreempt {
+		w.PreemptAvg = 0
 	}
 	w.park(t, Runnable, site, "")
 }
@@ -576,7 +618,7 @@ func (w *World) Run() Outcome {
 			w.unlock()
 			break
 		}
-		if w.Steps >= w.MaxSteps {
+		if w.Steps-w.Preemptions >= w.MaxSteps {
 			w.unlock()
 			out = OutBudget
 			break
